@@ -33,8 +33,12 @@ try:
     dcmd = meta.get("demo_command", "")
     denv = dict(env)
     seen_env = set()
-    for kv in re.findall(r"\b([A-Z][A-Z0-9_]+)=((?:[a-z0-9_.]+=[a-z0-9]+,?)+|[^\s;,)]+)", meta.get("demo_env", "") or ""):
-        kv = (kv[0], kv[1].rstrip(",."))
+    _envtxt = meta.get("demo_env", "") or ""
+    for _m in re.finditer(r"\b([A-Z][A-Z0-9_]+)=((?:[a-z0-9_.]+=[a-z0-9]+,?)+|[^\s;,)]+)", _envtxt):
+        # "must run without GODEBUG=...", "do NOT set GODEBUG=..." name a setting that is NOT part of the demonstration
+        if re.search(r"\b(without|not|no|never|unset|disappears with|passes with)\b[^=]{0,40}$", _envtxt[max(0, _m.start() - 60):_m.start()], re.I):
+            continue
+        kv = (_m.group(1), _m.group(2).rstrip(",."))
         if kv[0] not in ("GOFLAGS", "GOPROXY", "GOSUMDB", "GOTOOLCHAIN") and kv[0] not in seen_env:
             # free-text demo_env may list alternatives ("or GODEBUG=...", "passes with GODEBUG=..."): the first one counts
             denv[kv[0]] = kv[1]
